@@ -283,6 +283,12 @@ def _wrap1(name, real):
             raise PermissionError(errno.EACCES, 'refused by verification sandbox', p)
         if p is not None and fs.inside(p):
             fs.fault_point(name, p)
+            if name == 'statvfs':
+                # how much room the host has left is the environment's business, and other jobs change it
+                # while we run: the simulator decides what the engine sees
+                vals = list(real(path, *a, **kw))
+                vals[3] = vals[4] = max(0, int(getattr(fs, 'free_bytes', 1 << 30))) // (vals[1] or 4096)
+                return os.statvfs_result(vals)
         return real(path, *a, **kw)
     sim_fn.__name__ = name
     return sim_fn
